@@ -76,11 +76,32 @@ fn ancestor_in(infos: &[StmtInfo], in_a: &[bool], k: usize) -> bool {
 }
 
 pub fn check_range(ctx: &mut Ctx, id: &str, src: &str, c: &Cfg, range: (Option<usize>, Option<usize>), family: &str) {
-    let ast = match fmt::parse(src, c) {
+    // A text that starts with a byte order mark is not a program for the parser. Should the library
+    // accept it all the same, the range still counts bytes of the text as given: the statements
+    // are located in the text without the mark and shifted by its length.
+    const BOM: &str = "\u{feff}";
+    let (body, shift) = match src.strip_prefix(BOM) {
+        Some(rest) => (rest, BOM.len()),
+        None => (src, 0),
+    };
+    let ast = match fmt::parse(body, c) {
         Some(a) => a,
         None => return,
     };
-    let infos = stmts::collect(&ast);
+    let mut infos = stmts::collect(&ast);
+    if shift > 0 {
+        if ctx.eval(&format!("{id}#bom-probe"), src, c, None, false).result.is_err() {
+            ctx.count("bom.rejected_by_library");
+            return;
+        }
+        for st in infos.iter_mut() {
+            st.start += shift;
+            st.end += shift;
+            st.lead_start += shift;
+            st.trail_end += shift;
+            st.semi_end += shift;
+        }
+    }
     let s = range.0.unwrap_or(0);
     let e = range.1.unwrap_or(usize::MAX);
     let regs = regions(&infos, s, e);
@@ -384,6 +405,11 @@ pub fn run_item(w: &W, ctx: &mut Ctx, mut i: usize) {
                         }
                     }
                 }
+            }
+            // the same text behind a byte order mark, every single statement as the range (+3 bytes)
+            let with_bom = format!("{}{text}", "\u{feff}");
+            for a in 0..infos.len() {
+                check_range(ctx, &format!("c09:tmpl:{name}:bom:{a}"), &with_bom, &c0, (Some(infos[a].start + 3), Some(infos[a].end + 3)), name);
             }
             check_range(ctx, &format!("c09:tmpl:{name}:open"), text, &c0, (Some(text.len() / 2), None), name);
             check_range(ctx, &format!("c09:tmpl:{name}:inverted"), text, &c0, (Some(text.len() / 2), Some(1)), name);
